@@ -1192,6 +1192,12 @@ class Lower:
         for c in kids(rec):
             if c.get('kind') == 'CXXConstructorDecl' and not c.get('isImplicit') and c['type']['qualType'] == sig:
                 return c
+        # instantiations of constructor templates
+        for m, d in self.ast.defs.items():
+            if d.get('kind') == 'CXXConstructorDecl' and d['type']['qualType'] == sig:
+                r = self.ast.record_of(d)
+                if r is not None and r.get('name') == rn:
+                    return d
         return None
 
     def ex_CXXTypeidExpr(self, n):
@@ -1762,6 +1768,7 @@ class Lower:
         if is_ctor:
             out.append('  struct %s __obj;' % rec)
             out.append('  struct %s *this = &__obj;' % rec)
+            out.append('  if (g_exc) return __obj;')      # (a constructor call evaluated after an exception was raised has no effect)
             self.exc_exit = ['return __obj;']
             # member initialisers in declaration order (clang lists them in initialisation order)
             for ci in fn.get('inner', []):
